@@ -1,6 +1,10 @@
 import CookModel.Analysis.Collector
 import CookModel.Lemmas.Text
 import CookModel.Lemmas.LexLaws
+import CookModel.Lemmas.Roundtrip
+import CookModel.Lemmas.RoundtripQty
+import CookModel.Lemmas.RoundtripComp
+import CookModel.Lemmas.RoundtripStep
 /-
   C01  Printing a recipe as Cooklang and parsing it returns that recipe.
 
@@ -150,5 +154,270 @@ example : ¬ WellSpelled toyCharSpec [⟨.word, ['a', 'b'], 0⟩, ⟨.word, ['c'
 example : ¬ WellSpelled toyCharSpec [⟨.minus, ['-'], 0⟩, ⟨.minus, ['-'], 1⟩] := by decide
 example : ¬ WellSpelled toyCharSpec [⟨.int, ['0', '1'], 0⟩] := by decide
 example : WellSpelled toyCharSpec [⟨.zeroInt, ['0', '1'], 0⟩, ⟨.dot, ['.'], 2⟩, ⟨.int, ['5'], 3⟩] := by decide
+
+/-! ### the value layer: `spellVal` is read back by the value parser
+
+  `AVal`, `spellVal`, `VPad` are in Print/Printer.lean.  A statement about "the tokens of a
+  spelling" is a statement about every token list `ts` with `Spells ts (spellVal v p)`: the same
+  kinds and texts, whatever the positions (by `C01_lex_render` these are the tokens the lexer
+  produces from the rendered spelling). -/
+
+/-- Every numeric value — integer `12`, decimal `12.05` or `.5`, fraction `1/2`, mixed number
+    `1 1/2`, and with RANGE_VALUES a range `lo-hi` of those — spelled with arbitrary whitespace /
+    block-comment padding at both ends, around `/`, after the whole part and around the `-`
+    (`VPad`), is read by `numeric_value`/`range_value` as exactly the number it denotes: the
+    decimal with those digits (`Arith.ofDecimal`), the fraction with `err = 0`.  Hypotheses: the
+    parts of a fraction fit `u32` and the denominator is not 0 (`AVal.ok`); a range needs the
+    extension.  Holds for both arithmetic instances (`α` arbitrary). -/
+theorem C01_value_roundtrip {α : Type} [Arith α] (cs : CharSpec) (v : AVal) (p : VPad)
+    (hv : v.ok cs = true) (hp : p.ok cs = true) (hnum : v.isText = false)
+    (rangeExt : Bool) (hr : v.isRange = true → rangeExt = true)
+    (ts : List Tok) (hs : Spells ts (spellVal v p)) :
+    numOrRange (α := α) rangeExt ts = some (.ok v.denote) :=
+  rt_numOrRange v p hv hp hnum rangeExt hr ts hs
+
+/-- … and `parse_value` returns it located at ⟨start of the first token, current offset⟩,
+    pushes no diagnostic and leaves the parser state untouched. -/
+theorem C01_value_parse_numeric {α : Type} [Arith α] (v : AVal) (p : VPad) (s : BP α)
+    (hv : v.ok s.cs = true) (hp : p.ok s.cs = true) (hnum : v.isText = false)
+    (hr : v.isRange = true → s.ext.has Gen.EXT_RANGE_VALUES = true)
+    (ts : List Tok) (hs : Spells ts (spellVal v p)) :
+    parseValue ts s = (⟨v.denote, ⟨valStart ts s, offAt s.toks s.cur⟩⟩, s) :=
+  parseValue_num_run ts s _ (rt_numOrRange v p hv hp hnum _ hr ts hs)
+
+/-- A text value — words (any visible tokens except `/ . - % = { }`, e.g. `a pinch`, `2 heaped`,
+    `1st`) separated by single spaces, not a lone integer — padded with blanks at both ends is
+    read by `parse_value` as the text value with exactly that string (the padding is trimmed, no
+    space is collapsed), with no "empty value" error and no other diagnostic, under every
+    extension set.  `RunAt` (adjacent tokens) is what the lexer guarantees. -/
+theorem C01_value_text_roundtrip {α : Type} [Arith α] (l : List Tok) (p : VPad) (s : BP α)
+    (hv : (AVal.text l).ok s.cs = true) (hp : p.ok s.cs = true)
+    (ts : List Tok) (hs : Spells ts (spellVal (.text l) p)) (off : Nat) (hrun : RunAt off ts) :
+    parseValue ts s = (⟨(AVal.text l).denote, ⟨valStart ts s, offAt s.toks s.cur⟩⟩, s) := by
+  simp only [AVal.ok, Bool.and_eq_true] at hv
+  simp only [VPad.ok, Bool.and_eq_true] at hp
+  obtain ⟨⟨⟨⟨⟨hpre, hpost⟩, -⟩, -⟩, -⟩, -⟩ := hp
+  have hs0 := hs
+  simp only [spellVal, spellCore] at hs
+  obtain ⟨r1, post, rfl, hs1, hpost'⟩ := hs.append_inv
+  obtain ⟨pre, tl, rfl, hpre', htl⟩ := hs1.append_inv
+  have hnn := rt_text_not_numeric (α := α) l hv.1 hv.2 pre tl post htl
+    (padOK_blank (hpre'.padOK_of hpre)) (padOK_blank (hpost'.padOK_of hpost)) (s.ext.has Gen.EXT_RANGE_VALUES)
+  obtain ⟨h1, h2⟩ := rt_leaf_text (cs := s.cs) hs0 hpre hpost hv.1 (valStart (pre ++ tl ++ post) s)
+  rw [parseValue_text_run _ s hrun hnn h2, h1]
+  rfl
+
+/-- `01` never starts a number: a value whose first non-blank token is a `ZeroInt` is not numeric
+    (it is read as text) — the printer therefore never writes an integer with a leading zero. -/
+theorem C01_value_zeroInt_not_number {α : Type} [Arith α] (pre rest : List Tok) (z : Tok) (hz : z.kind = .zeroInt)
+    (hpre : ∀ t ∈ pre, BlankT t) (rangeExt : Bool) :
+    numOrRange (α := α) rangeExt (pre ++ z :: rest) = none :=
+  rt_zeroInt_numOrRange pre rest z hz hpre rangeExt
+
+/-- without RANGE_VALUES the spelling of a range is not numeric (`parse_value` reads it as a text
+    value) — the printer writes ranges only when the extension is on. -/
+theorem C01_value_range_off_is_text {α : Type} [Arith α] (cs : CharSpec) (lo hi : ANum) (p : VPad) (hp : p.ok cs = true)
+    (ts : List Tok) (hs : Spells ts (spellVal (.range lo hi) p)) :
+    numOrRange (α := α) false ts = none :=
+  rt_range_off lo hi p hp ts hs
+
+/-! examples (non-vacuity): `[- c -] 1 1 / 2`, the range `1.5 - 2/3`, the text `2 heaped` -/
+def C01_exPad : VPad :=
+  { pre := [tk .blockComment "[- c -]".toList, tk .ws [' ']], post := [tk .ws ['\t']],
+    lo := { w := [tk .ws [' ']], a := [tk .ws [' ']], b := [tk .ws [' ']] },
+    m1 := [tk .ws [' ']], m2 := [tk .ws [' ']] }
+
+def C01_exMixed : AVal := .num (.mixed ['1'] ['1'] ['2'])
+def C01_exRange : AVal := .range (.dec ['1'] ['5']) (.frac ['2'] ['3'])
+def C01_exText : AVal := .text [tk .int ['2'], tk .ws [' '], tk .word "heaped".toList]
+
+example : C01_exPad.ok toyCharSpec = true := by decide
+example : C01_exMixed.ok toyCharSpec = true ∧ C01_exRange.ok toyCharSpec = true ∧ C01_exText.ok toyCharSpec = true := by
+  decide
+example : numOrRange (α := Rat) false (spellVal C01_exMixed C01_exPad) =
+    some (.ok (.number (.fraction 1 1 2 (Arith.ofNat 0)))) :=
+  C01_value_roundtrip toyCharSpec _ _ (by decide) (by decide) rfl false (by decide) _ rfl
+example : (AVal.denote (α := Rat) C01_exText) = .text "2 heaped".toList := by decide
+/-- the side conditions are needed: `1/0` is an error, a lone integer is a number, two spaces are
+    collapsed -/
+example : numericValue (α := Rat) (spellVal (.num (.frac ['1'] ['0'])) {}) =
+    some (.error ⟨.error, .parse, "division-by-zero", [⟨0, 1⟩]⟩) := by rfl
+example : (AVal.text [tk .int ['2']]).ok toyCharSpec = false := by decide
+example : (AVal.text [tk .word ['a'], tk .ws [' '], tk .ws [' '], tk .word ['b']]).ok toyCharSpec = false := by decide
+
+/-! ### the quantity layer: `spellQty` is read back by `parse_quantity` -/
+
+/-- The regular quantity parser, run on the sub-block of tokens between the braces
+    (`s.toks = ts`, cursor 0) where `ts` spells `[blanks =] value [% blanks unit blanks]`
+    (`spellQty`, any value of the value layer, unit = words separated by single spaces), returns
+    the intended value (located), a scaling lock iff `=` was written, the unit text whose trimmed
+    string is the intended unit, `unitSep` set iff a unit was written, the span of the whole
+    sub-block — and the final state is the initial one with the cursor at the end: NO event is
+    pushed (no error, no warning), no panic.  `RunAt` (adjacent tokens) is what the lexer gives. -/
+theorem C01_quantity_roundtrip {α : Type} [Arith α] (q : AQty) (p : QPad) (s : BP α)
+    (hq : q.ok s.cs = true) (hp : p.ok s.cs = true)
+    (hr : q.val.isRange = true → s.ext.has Gen.EXT_RANGE_VALUES = true)
+    (ts : List Tok) (hs : Spells ts (spellQty q p)) (ht : s.toks = ts) (hc : s.cur = 0)
+    (hrun : RunAt (baseOff ts) ts) :
+    ∃ vspan lspan unitT sep,
+      parseRegularQuantity s =
+        (⟨⟨⟨⟨⟨q.val.denote, vspan⟩, lspan⟩, unitT⟩, tokensSpan ts⟩, sep⟩, { s with cur := ts.length }) ∧
+      lspan.isSome = q.lock ∧ unitT.map (fun t => t.trimmed s.cs) = q.unit.map leafText ∧
+      sep.isSome = q.unit.isSome :=
+  rt_parseRegularQuantity q p s hq hp hr ts hs ht hc hrun
+
+/-- `parse_quantity` (what the component parsers call) gives the same result under every
+    extension set and hands the outer parser back exactly as it was.  With ADVANCED_UNITS the
+    advanced form is tried first and declines: a `%` is present, or the value is a number
+    without unit, or a text value starting with a word (`AQty.advSafe`; this is the exact side
+    condition: `{2 heaped}` without `%` IS number + unit under ADVANCED_UNITS, see the example). -/
+theorem C01_quantity_roundtrip_any_ext {α : Type} [Arith α] (q : AQty) (p : QPad) (outer : BP α)
+    (hq : q.ok outer.cs = true) (hp : p.ok outer.cs = true)
+    (hr : q.val.isRange = true → outer.ext.has Gen.EXT_RANGE_VALUES = true)
+    (hadv : outer.ext.has Gen.EXT_ADVANCED_UNITS = true → q.advSafe = true)
+    (ts : List Tok) (hs : Spells ts (spellQty q p)) (hrun : RunAt (baseOff ts) ts) :
+    ∃ vspan lspan unitT sep,
+      parseQuantity ts outer = (⟨⟨⟨⟨⟨q.val.denote, vspan⟩, lspan⟩, unitT⟩, tokensSpan ts⟩, sep⟩, outer) ∧
+      lspan.isSome = q.lock ∧ unitT.map (fun t => t.trimmed outer.cs) = q.unit.map leafText ∧
+      sep.isSome = q.unit.isSome :=
+  rt_parseQuantity q p outer hq hp hr hadv ts hs hrun
+
+/-! examples: ` = 1 1 / 2 % fl oz `, and the `advSafe` clause -/
+def C01_exQty : AQty :=
+  { lock := true, val := C01_exMixed, unit := some [tk .word "fl".toList, tk .ws [' '], tk .word "oz".toList] }
+def C01_exQPad : QPad := { l0 := [tk .ws [' ']], v := C01_exPad, u0 := [tk .ws [' ']], u1 := [tk .ws [' ']] }
+
+example : C01_exQty.ok toyCharSpec = true ∧ C01_exQPad.ok toyCharSpec = true ∧ C01_exQty.advSafe = true := by decide
+example : ({ val := C01_exText } : AQty).advSafe = false := by decide
+example : ({ val := C01_exText, unit := some [tk .word ['g']] } : AQty).advSafe = true := by decide
+/-- the clause is needed: under ADVANCED_UNITS `{2 heaped}` is the number 2 with unit `heaped`,
+    without the extension it is the text value `2 heaped` without unit -/
+def C01_twoHeaped : List Tok := [⟨.int, ['2'], 0⟩, ⟨.ws, [' '], 1⟩, ⟨.word, "heaped".toList, 2⟩]
+example : Spells C01_twoHeaped (spellQty { val := C01_exText } {}) := by decide
+example : (parseQuantity (α := Rat) C01_twoHeaped
+    ⟨[], 0, ⟨Gen.EXT_ADVANCED_UNITS⟩, toyCharSpec, #[], none⟩).1.quantity.val.unit.isSome = true := by decide
+example : (parseQuantity (α := Rat) C01_twoHeaped
+    ⟨[], 0, ⟨0⟩, toyCharSpec, #[], none⟩).1.quantity.val.unit.isSome = false := by decide
+
+/-! ### the component layer: `spellIngredient` is read back by the ingredient parser -/
+
+/-- An ingredient spelled `@ modifiers name [| alias] { quantity } [(note)]` — multi-word name in
+    braces, optional alias (ALIAS), modifier characters in any order (MODIFIERS), optional
+    quantity of the quantity layer, optional note, blanks after the name, around the alias, in
+    the braces (`CPad`) — standing anywhere in a block (`A` before, `rest` after, `rest` not
+    starting with `(` unless a note was written), is parsed by `ingredient()` to
+    `some (ingredient …)` whose name / alias / note texts trim to the intended strings, whose
+    modifier flags are exactly the written ones, without intermediate reference, with the quantity
+    as in `C01_quantity_roundtrip`; its span runs from the offset before `@` to the end of the
+    last token of the spelling; the cursor is left exactly after the component; the final state
+    differs from the initial one in the cursor only: NO diagnostic is pushed, no panic.
+    `AComp.wf` (decidable) lists the side conditions; they are necessary (examples below). -/
+theorem C01_component_roundtrip {α : Type} [Arith α] (c : AComp) (p : CPad) (s : BP α)
+    (hwf : c.wf s.cs s.ext = true) (hp : p.ok s.cs = true)
+    (A ts rest : List Tok) (hs : Spells ts (spellIngredient c p)) (ht : s.toks = A ++ (ts ++ rest))
+    (hc : s.cur = A.length) (hrest : restOK c rest = true) (hrun : RunAt (baseOff s.toks) s.toks) :
+    ∃ ing : PIngredient α,
+      ingredientP s = (some (.ingredient ⟨ing, ⟨offAt s.toks A.length, offAt s.toks (A.length + ts.length)⟩⟩),
+        { s with cur := A.length + ts.length }) ∧ IngrMatches s.cs c ing :=
+  rt_ingredientP c p s hwf hp A ts rest hs ht hc hrest hrun
+
+/-- The same for cookware `# modifiers name [| alias] { quantity } [(note)]`: additionally the
+    quantity has no unit and `@` is not among the modifiers (both are errors for cookware,
+    `AComp.wfCookware`); the parsed quantity is the value with its lock. -/
+theorem C01_component_roundtrip_cookware {α : Type} [Arith α] (c : AComp) (p : CPad) (s : BP α)
+    (hwf : c.wfCookware s.cs s.ext = true) (hp : p.ok s.cs = true)
+    (A ts rest : List Tok) (hs : Spells ts (spellCookware c p)) (ht : s.toks = A ++ (ts ++ rest))
+    (hc : s.cur = A.length) (hrest : restOK c rest = true) (hrun : RunAt (baseOff s.toks) s.toks) :
+    ∃ cw : PCookware α,
+      cookwareP s = (some (.cookware ⟨cw, ⟨offAt s.toks A.length, offAt s.toks (A.length + ts.length)⟩⟩),
+        { s with cur := A.length + ts.length }) ∧ CwMatches s.cs c cw :=
+  rt_cookwareP c p s hwf hp A ts rest hs ht hc hrest hrun
+
+/-! examples: `@-?olive oil |EVOO {= 1 1 / 2 % fl oz }(cold pressed)` satisfies the side
+    conditions under the full extension set; each clause of `AComp.wf` is needed -/
+def C01_allExt : Ext := ⟨Gen.EXT_COMPONENT_MODIFIERS ||| Gen.EXT_COMPONENT_ALIAS ||| Gen.EXT_ADVANCED_UNITS |||
+  Gen.EXT_RANGE_VALUES ||| Gen.EXT_INTERMEDIATE_PREPARATIONS⟩
+def C01_exComp : AComp :=
+  { mods := [.minus, .question],
+    name := [tk .word "olive".toList, tk .ws [' '], tk .word "oil".toList],
+    alias := some [tk .word "EVOO".toList],
+    qty := some C01_exQty,
+    note := some [tk .word "cold".toList, tk .ws [' '], tk .word "pressed".toList] }
+def C01_exCPad : CPad := { n1 := [tk .ws [' ']], a1 := [tk .ws [' ']], q := C01_exQPad }
+
+example : C01_exComp.wf toyCharSpec C01_allExt = true ∧ C01_exCPad.ok toyCharSpec = true := by decide
+example : modsOf [.minus, .question] = ⟨Modifiers.HIDDEN ||| Modifiers.OPT⟩ := by decide
+/-- realistic names of the harness pool pass: `1st press oil` (a digit glued to a word), `sea salt` -/
+example : ({ name := [tk .int ['1'], tk .word "st".toList, tk .ws [' '], tk .word "press".toList, tk .ws [' '],
+    tk .word "oil".toList] } : AComp).wf toyCharSpec ⟨0⟩ = true := by decide
+/-- necessary clauses, each with the input on which the parser gives something else:
+    a name starting with a modifier character under MODIFIERS (`@?x{}` is `x`, optional) … -/
+example : ({ name := [tk .question ['?'], tk .word ['x']] } : AComp).wf toyCharSpec C01_allExt = false := by decide
+example : ({ name := [tk .question ['?'], tk .word ['x']] } : AComp).wf toyCharSpec ⟨0⟩ = true := by decide
+def C01_qx : List Tok := [⟨.at, ['@'], 0⟩, ⟨.question, ['?'], 1⟩, ⟨.word, ['x'], 2⟩, ⟨.openBrace, ['{'], 3⟩, ⟨.closeBrace, ['}'], 4⟩]
+example : (match (ingredientP (α := Rat) ⟨C01_qx, 0, C01_allExt, toyCharSpec, #[], none⟩).1 with
+    | some (.ingredient i) => i.val.name.text == ['x'] && i.val.modifiers.val.contains Modifiers.OPT
+    | _ => false) = true := by decide
+/-- … a `|` in the name under ALIAS (`@a|b{}` is `a` with alias `b`) … -/
+example : ({ name := [tk .word ['a'], tk .or ['|'], tk .word ['b']] } : AComp).wf toyCharSpec C01_allExt = false := by decide
+def C01_ab : List Tok := [⟨.at, ['@'], 0⟩, ⟨.word, ['a'], 1⟩, ⟨.or, ['|'], 2⟩, ⟨.word, ['b'], 3⟩, ⟨.openBrace, ['{'], 4⟩, ⟨.closeBrace, ['}'], 5⟩]
+example : (match (ingredientP (α := Rat) ⟨C01_ab, 0, C01_allExt, toyCharSpec, #[], none⟩).1 with
+    | some (.ingredient i) => i.val.name.text == ['a'] && i.val.alias.isSome
+    | _ => false) = true := by decide
+/-- … a modifier written without MODIFIERS (it is part of the name), a modifier written twice
+    (an error is pushed), an alias without ALIAS, `{`/`(`/`)` in a name or note … -/
+example : ({ mods := [.question], name := [tk .word ['x']] } : AComp).wf toyCharSpec ⟨0⟩ = false := by decide
+example : ({ mods := [.question, .question], name := [tk .word ['x']] } : AComp).wf toyCharSpec C01_allExt = false := by decide
+example : ({ name := [tk .word ['x']], alias := some [tk .word ['y']] } : AComp).wf toyCharSpec ⟨0⟩ = false := by decide
+example : ({ name := [tk .word ['x'], tk .openBrace ['{']] } : AComp).wf toyCharSpec ⟨0⟩ = false := by decide
+example : ({ name := [tk .word ['x']], note := some [tk .word ['a'], tk .closeParen [')'], tk .word ['b']] } : AComp).wf
+    toyCharSpec ⟨0⟩ = false := by decide
+/-- … and what follows: without a note a `(`…`)` directly after `}` would be taken as the note -/
+example : restOK { name := [tk .word ['x']] } [tk .openParen ['(']] = false := by decide
+example : restOK { name := [tk .word ['x']] } [tk .ws [' '], tk .openParen ['(']] = true := by decide
+
+/-- cookware: `#-large pot{2}` passes, a unit does not -/
+def C01_exPot : AComp :=
+  { mods := [.minus],
+    name := [tk .word "large".toList, tk .ws [' '], tk .word "pot".toList],
+    qty := some { val := .num (.int ['2']) } }
+def C01_exPanL : AComp :=
+  { name := [tk .word "pan".toList],
+    qty := some { val := .num (.int ['2']), unit := some [tk .word ['l']] } }
+example : C01_exPot.wfCookware toyCharSpec C01_allExt = true := by decide
+example : C01_exPanL.wfCookware toyCharSpec C01_allExt = false := by decide
+
+/-! ### the step layer: one event per segment -/
+
+/-- Step composition.  A step block whose tokens are the concatenation of segments, each a text
+    run (non-empty, no `@ # ~`, showing at least one character — a lone newline between two
+    components counts, it shows as one space) or an ingredient / cookware spelling of the
+    component layer, where two text runs never touch (they would be one run) and a component
+    without note is not followed by `(` (`segsOK`, decidable), is parsed by `parse_step` to:
+    `start step`, then exactly one event per segment in order — a text event whose characters are
+    the visible characters of the run (`buildText_text`), an ingredient / cookware event matching
+    the intended component (`IngrMatches` / `CwMatches`) — then `stop step`, and NOTHING else: no
+    error, no warning; no panic; the cursor at the end of the block.
+    Partial: timers and single-word components (without braces) are not among the segments;
+    the block-level layers (splitter, metadata, sections) and the analysis pass are not covered. -/
+theorem C01_step_compose_partial {α : Type} [Arith α] (segs : List Seg) (s : BP α) (ts : List Tok)
+    (hs : Spells ts (segs.flatMap Seg.spell)) (ht : s.toks = ts) (hc : s.cur = 0)
+    (hrun : RunAt (baseOff ts) ts) (hok : segsOK s.cs s.ext segs = true) :
+    ∃ (evs : List (Ev α)) (arr : Array (Ev α)),
+      parseStep s = ((), { s with cur := ts.length, evs := arr }) ∧
+      arr.toList = s.evs.toList ++ [.start .step] ++ evs ++ [.stop .step] ∧ SegsEvs s.cs segs evs :=
+  rt_parseStep segs s ts hs ht hc hrun hok
+
+/-- example: `Fry the @-?olive oil |EVOO {…}(cold pressed)⏎#-large pot{2} gently.` -/
+def C01_exStep : List Seg :=
+  [.text [tk .word "Fry".toList, tk .ws [' '], tk .word "the".toList, tk .ws [' ']],
+   .ingredient C01_exComp C01_exCPad,
+   .text [tk .newline ['\n']],
+   .cookware C01_exPot {},
+   .text [tk .ws [' '], tk .word "gently".toList, tk .dot ['.']]]
+example : segsOK toyCharSpec C01_allExt C01_exStep = true := by decide
+/-- two touching text runs, or `(` right after a component without note, are rejected -/
+example : segsOK toyCharSpec C01_allExt [.text [tk .word ['a']], .text [tk .ws [' ']]] = false := by decide
+example : segsOK toyCharSpec C01_allExt [.cookware C01_exPot {}, .text [tk .openParen ['(']]] = false := by decide
 
 end Cook
